@@ -3,6 +3,7 @@
 //   - `X.messageOut <- v` / `X.messageEvent <- v` statements        -> sync.Send(ch, v)
 //   - select { case ch <- v: A; default: B } on those channels      -> if sync.TrySend(ch, v) { A } else { B }
 //   - close(X.messageOut)                                            -> sync.Close(ch)
+//
 // and writes the overlay file for `go build -overlay`. A construct it does not recognise is left as
 // is and reported on stdout (the scheduler's watchdog turns a blocked real channel operation into an
 // engine error, never into a verdict).
